@@ -2,8 +2,9 @@ import Iota.Driver.All
 import Iota.Driver.GenCode
 import Iota.Driver.GenSecp
 import Iota.Driver.GenAddr
+import Iota.Driver.GenBip39
 
 namespace Iota.Driver
 /-- the model's ops and the ops answered by the generated code -/
-def allOps : List (String × Handler) := modelOps ++ GenCode.ops ++ GenSecp.ops ++ GenAddr.ops
+def allOps : List (String × Handler) := modelOps ++ GenCode.ops ++ GenSecp.ops ++ GenAddr.ops ++ GenBip39.ops
 end Iota.Driver
